@@ -28,10 +28,12 @@ def _near(flat, scores):
 # ------------------------------------------------------------------ clause: cm_counts
 @st.composite
 def _cm_cases(draw, max_size=10):
-    s = draw(gen.score_sets(max_size=max_size, mag=1e300, max_easy=1000))
+    s = draw(gen.score_sets(max_size=max_size, mag=1e300, max_easy=1000, huge_easy=True))
     thr = draw(gen.shaped_thresholds(s["pos"] + s["neg"], mag=1e300))
+    f32 = draw(st.sampled_from([None, None, None, "float32", "float16"])) if s["mode"] in ("grid", "dyadic") else None
     return dict(s=s, thr=thr, sorted=draw(st.booleans()),
-                via=draw(st.sampled_from(["ctor", "ctor", "labels"])))
+                via=draw(st.sampled_from(["ctor", "ctor", "labels", "lists"])), dtype=f32,
+                thr_as=draw(st.sampled_from(["array", "array", "list", "F", "f32", "f16"])))
 
 
 def _build(case, sc, ec):
@@ -39,7 +41,11 @@ def _build(case, sc, ec):
 
     s = case["s"]
     pos, neg = _arr(s["pos"], s["mode"]), _arr(s["neg"], s["mode"])
+    if case.get("dtype"):
+        pos, neg = pos.astype(case["dtype"]), neg.astype(case["dtype"])
     kw = dict(nb_easy_pos=s["ep"], nb_easy_neg=s["en"], score_class=sc, equal_class=ec)
+    if case.get("via") == "lists":
+        return Scores(list(s["pos"]), list(s["neg"]), **kw)
     if case.get("via") == "labels":
         labels = np.concatenate([np.ones(len(pos), dtype=int), np.zeros(len(neg), dtype=int)])
         allv = np.concatenate([pos, neg])
@@ -55,6 +61,15 @@ def check_cm(case):
     shape = tuple(case["thr"]["shape"])
     flat = case["thr"]["flat"]
     thr = gen.np_array(flat, shape)
+    if case.get("thr_as") in ("f32", "f16"):
+        # thresholds held in a narrow float dtype: the decision rule applies to the values they hold
+        with np.errstate(over="ignore"):
+            thr = thr.astype(np.float32 if case["thr_as"] == "f32" else np.float16)
+        flat = [float(x) for x in thr.reshape(-1).tolist()]
+    if case.get("thr_as") == "list" and 0 not in shape:  # nested lists cannot carry size-0 axes
+        thr = thr.tolist()
+    elif case.get("thr_as") == "F" and len(shape) >= 2:
+        thr = np.asfortranarray(thr)
     pos, neg = s["pos"], s["neg"]
     ep, en = s["ep"], s["en"]
     for sc, ec in CONFIGS:
@@ -80,7 +95,9 @@ def check_cm(case):
                 require(ok, "cm:rate", lambda: f"{m} config={sc}/{ec} t={t!r} got {rf[i]!r} "
                                                f"expected {e!r}")
     nontrivial = bool(pos) and bool(neg) and _near(flat, pos + neg)
-    labels = [f"mode:{s['mode']}", f"arr:{s['arr']}", f"rank:{len(shape)}"]
+    labels = [f"mode:{s['mode']}", f"arr:{s['arr']}", f"rank:{len(shape)}", f"via:{case.get('via')}"]
+    if case.get("dtype"):
+        labels.append(f"dtype:{case['dtype']}")
     if 0 in shape:
         labels.append("size0-axis")
     if ep or en:
